@@ -74,8 +74,14 @@ def production_tables(chk, rng, thorough):
             cur += encgen.fast_copy(h0 + bytes(cur), off, ml)
             seqs.append((ll, off, ml))
         lines.append('rencm 1 131072 %s+%s' % (encgen.block_spec(h0, []), encgen.block_spec(bytes(cur), seqs)))
+    # general valid parses as well (varied literal / match length codes, several blocks)
+    from checks.C16 import gen_frame_spec
+    for i in range(120 if thorough else 40):
+        spec, _d = gen_frame_spec(rng, 131072, False)
+        lines.append('rencm 1 131072 %s' % spec)
     res = zh_par('codec', lines)
     seen = {'ll': 0, 'of': 0, 'ml': 0}
+    sections = []
     maxlog = {'ll': 0, 'of': 0, 'ml': 0}
     for ln, r in zip(lines, res):
         w = (r or 'missing').split()
@@ -104,6 +110,11 @@ def production_tables(chk, rng, thorough):
                 q += 1 if ns < 255 else 2
             modes = b[q]
             q += 1
+            if modes == 0xA8 and len(b) - q < 20000:
+                # all three tables FSE-coded (what this compressor always writes): remember the section for the
+                # re-encoding tie below
+                nsq = ns if ns < 128 else ((ns - 128) << 8) + b[q - 2] if ns < 255 else b[q - 3] + (b[q - 2] << 8) + 0x7F00
+                sections.append((ln, nsq, modes, b[q:]))
             for kind, shift, mlog, msym in (('ll', 6, 9, 35), ('of', 4, 8, 31), ('ml', 2, 9, 52)):
                 m = (modes >> shift) & 3
                 if m == 1:
@@ -119,9 +130,24 @@ def production_tables(chk, rng, thorough):
                     seen[kind] += 1
                     maxlog[kind] = max(maxlog[kind], d[0])
                     q += d[2]
+    # the compressor's sequences bit stream = the model's: decode the section with the decoder model, derive the encoder
+    # tables from the decoding tables, write the fields in the modelled order, compare byte for byte
+    mres = model_run('seqenc', ['%d %d %s' % (n, m, hexs(src)) for (ln, n, m, src) in sections])
+    same = 0
+    for (ln, n, m, src), r in zip(sections, mres):
+        w = (r or 'missing').split()
+        if w[0] != 'ok' or int(w[1]) != n:
+            chk.tie_broken('correspondence:sequence-stream', 'the model cannot decode a sequences section the compressor wrote: %s (%d sequences); %s' % (r, n, ln[:150]))
+            break
+        if w[2] != w[3]:
+            chk.tie_broken('correspondence:sequence-stream', 'the modelled sequences bit stream differs from the one the compressor wrote (%d sequences): model %s.. real %s..; %s' % (
+                n, w[3][:60], w[2][:60], ln[:150]))
+            break
+        same += 1
     chk.add_samples('production-tables', len(lines), len(set(lines)), [{'command': lines[0][:120]}],
                     rule='blocks whose offset codes have a flat histogram over codes 5..15 plus one rare code (normalised sum above 256), with fixed and varied literal / match length codes, compressed through a scripted matcher; every table description in the emitted blocks is parsed with an independent RFC reader under the format limits')
-    chk.cov['components']['production-tables'].update({'descriptions_parsed': seen, 'largest_accuracy_log': maxlog})
+    chk.cov['components']['production-tables'].update({'descriptions_parsed': seen, 'largest_accuracy_log': maxlog,
+                                                        'sequence_sections': len(sections), 'sequence_streams_reencoded_identically': same})
 
 
 def run(chk):
